@@ -1120,10 +1120,11 @@ func (t *tb) loopIdiomDesc(acc, iv *ssa.Phi, latch int, n int64) (aff, bool) {
 		return aff{}, false
 	}
 	cond, ok := iff.Cond.(*ssa.BinOp)
-	if !ok || cond.Op != token.GTR || cond.X != ssa.Value(iv) {
+	if !ok || (cond.Op != token.GTR && cond.Op != token.GEQ) || cond.X != ssa.Value(iv) {
 		return aff{}, false
 	}
-	if k, isK := t.constVal(cond.Y); !isK || k != 0 {
+	// "i > 0" or "i >= 1"
+	if k, isK := t.constVal(cond.Y); !isK || (cond.Op == token.GTR && k != 0) || (cond.Op == token.GEQ && k != 1) {
 		return aff{}, false
 	}
 	if w, _, isInt := intBits(acc.Type()); !isInt || 8*n > int64(w) {
